@@ -12,7 +12,8 @@
       scope dump (one token per scope, allocation order):
         <printed>|<parent printed or ->|<alias>><printed scope>.<ident>,…|<ident>:<kind>,…
 
-  c13 discover <entries>      entries := n entry*   entry := f stem roto(0/1) | d name entries
+  c13 discover V <n> <name>*n <entries>   (names that are not identifier-shaped)
+      entries := n entry*   entry := f stem roto(0/1) | d name entries
     answer  `none` | `<moduleName>:<child>,<child>… ` per file
 -/
 import Driver.Util
@@ -146,8 +147,10 @@ partial def entry : P Entry := do
 end
 
 def discover : P String := do
+  -- `V <n> <name>*n`: the names that are *not* identifier-shaped
+  expect "V"; let n ← nat; let bad ← rep nat n
   let es ← entries
-  match directory es with
+  match directory (fun x => !bad.contains x) es with
   | none => pure "none"
   | some files =>
     pure (" ".intercalate (files.map fun f =>
